@@ -460,6 +460,18 @@ impl WorldA {
             if lo.iter().filter(|r| r.0 == s).count() > 1 || ls.iter().filter(|r| r.0 == o).count() > 1 {
                 self.viol(out, "C19", "duplicate-listing-entry", json!({}), format!("{} -> {}", o, s));
             }
+            // C02: an allowance "changes only by its owner's increase or decrease or by its spender's own draws" in
+            // every view the token offers; the frame relations pin the owner-side views, so a by-spender entry with
+            // another amount is an allowance that changed (or failed to change) without such a call
+            if point.0 != vs.0 {
+                self.viol(
+                    out,
+                    "C02",
+                    "allowance-view-out-of-step",
+                    json!({"view": "by-spender"}),
+                    format!("owner {} spender {}: the allowance is {} (Allowance / AllAllowances), AllSpenderAllowances reports {}", o, s, point.0, vs.0),
+                );
+            }
             if point != vo || point != vs {
                 self.meter.hit("c19_disagreement_seen");
                 self.viol(
@@ -928,6 +940,33 @@ impl WorldA {
         // C13
         let pm = pre.minter.clone().flatten();
         let qm = post.minter.clone().flatten();
+        {
+            // "tokens are created only by a Mint call from the current minter": the tokens themselves, not only the
+            // supply figure — what the observed accounts hold together grows in no other call
+            let sum = |v: &[u128]| v.iter().fold(Some(0u128), |a, b| a.and_then(|x| x.checked_add(*b)));
+            if let (Some(a), Some(b)) = (sum(&pre.bal), sum(&post.bal)) {
+                let is_mint = matches!(msg, Cw20ExecuteMsg::Mint { .. });
+                let by_minter = pm.as_ref().map(|m| m.0 == sender).unwrap_or(false);
+                if b > a && !(is_mint && by_minter) {
+                    self.viol(
+                        out,
+                        "C13",
+                        "tokens-created-outside-mint",
+                        json!({"kind": kind}),
+                        format!("{} by {}: the observed accounts held {} before and {} after", kind, self.role(&sender), a, b),
+                    );
+                }
+                if is_mint && b > a && b - a > amount_tok {
+                    self.viol(
+                        out,
+                        "C13",
+                        "tokens-created-outside-mint",
+                        json!({"kind": "mint-credited-more-than-minted"}),
+                        format!("Mint of {} credited {} to the observed accounts", amount_tok, b - a),
+                    );
+                }
+            }
+        }
         if qs > ps {
             let is_mint = matches!(msg, Cw20ExecuteMsg::Mint { .. });
             let by_minter = pm.as_ref().map(|m| m.0 == sender).unwrap_or(false);
